@@ -6,7 +6,7 @@
    abs p.  No bound on rows, chunks, offsets base or list lengths. *)
 From Coq Require Import String List Arith Bool ZArith.
 Import ListNotations.
-From NP Require Import Base Values Arrow Abs Kernels ExtArray Logical Proofs_Views.
+From NP Require Import Base Values Arrow Abs Kernels ExtArray Logical Steps Proofs_Views Proofs_Views2.
 
 Theorem C03_len : forall p, m_len p = spec_len (abs p).
 Proof. exact len_refines. Qed.
@@ -74,6 +74,31 @@ Theorem C03_hidden_refuted : exists p,
   m_to_flat p (map fst (ctype p)) <> Ok (spec_offset_diffs (abs p), spec_flat (abs p)).
 Proof. exists hidden_witness. split; [reflexivity|]. split; [discriminate|]. split; vm_compute; discriminate. Qed.
 Print Assumptions C03_hidden_refuted.
+
+(* the remaining views, stated against the full invariant inv_b (Steps.v): the list view (one list column per
+   field; to_lists / nest.to_lists) holds exactly the logical lists, for all fields or any non-empty selection of
+   existing ones; the row view (iteration, to_pylist) is the logical sequence of rows; the element view restricted
+   to selected fields has the logical per-row lengths and the logical elements of those fields *)
+Theorem C03_to_lists : forall p, inv_b p = true ->
+  res_map (map (map (@olist val))) (m_to_lists p (map fst (ctype p))) = Ok (lcols (abs p)).
+Proof. exact to_lists_refines. Qed.
+Print Assumptions C03_to_lists.
+
+Theorem C03_to_lists_fields : forall p fields, inv_b p = true -> fields <> [] ->
+  forallb (has_name (map fst (ctype p))) fields = true ->
+  res_map (map (map (@olist val))) (m_to_lists p fields) = Ok (spec_lists_fields (abs p) fields).
+Proof. exact to_lists_fields_refines. Qed.
+Print Assumptions C03_to_lists_fields.
+
+Theorem C03_rows : forall p, inv_b p = true -> m_rows p = rows_of (abs p).
+Proof. exact rows_refines. Qed.
+Print Assumptions C03_rows.
+
+Theorem C03_to_flat_fields : forall p fields, inv_b p = true -> fields <> [] ->
+  forallb (has_name (map fst (ctype p))) fields = true ->
+  m_to_flat p fields = Ok (spec_offset_diffs (abs p), spec_flat_fields (abs p) fields).
+Proof. exact to_flat_fields_refines. Qed.
+Print Assumptions C03_to_flat_fields.
 
 (* non-vacuity: a sliced, two-chunk column with a missing and an empty row meets every hypothesis *)
 Definition sample_col : chunked :=
